@@ -63,6 +63,9 @@ pub fn acmp(e: &mut Value) {
     e["v"] = json!(v);
     e["ac"] = num(ax.coefficient());
     e["af"] = json!(ax.n_frac_digits());
+    // predicates and Debug text of the archived value
+    e["apred"] = json!([ax.eq_zero() as u8, ax.eq_one() as u8, ax.is_negative() as u8, ax.is_positive() as u8]);
+    e["adbg"] = json!(codes(&format!("{:?}", ax)));
 }
 
 #[cfg(not(feature = "rkyv"))]
